@@ -368,6 +368,9 @@ func stringVals() ([]string, []string, []string, []int, []int) {
 	es := []e{
 		{"", `""`, "literal", 0, 0},
 		{rebuilt(""), `""`, "rebuilt-from-bytes", 1, 1},
+		// empty strings whose data pointers are non-nil and differ (an empty string is not always the zero header)
+		{"xyz"[1:1], `""`, `empty substring "xyz"[1:1]`, 1, 0},
+		{bigFirst[7:7], `""`, "empty substring of a heap string", 1, 1},
 		{"a", `"a"`, "literal", 0, 0},
 		{rebuilt("a"), `"a"`, "rebuilt-from-bytes", 1, 0},
 		{"ab"[:1], `"a"`, `substring "ab"[:1]`, 1, 0},
